@@ -1,0 +1,1 @@
+//! Hooks owned by property C18 (feature `verif-hooks`).
